@@ -218,6 +218,29 @@ def decVerb : String → Option Verb
   | "retrievemetadata" => some .retrievemetadata | "deleteobject" => some .deleteobject
   | "deletemetadata" => some .deletemetadata | _ => none
 
+def showKind : SiteKind → String
+  | .mkdirs => "mkdirs" | .mkTmp => "mkTmp" | .openWrite => "openWrite" | .rename => "rename"
+  | .remove => "remove" | .flock => "flock" | .openRead => "openRead"
+
+def showArea : Area → String
+  | .obj => "obj" | .pidRef => "pidRef" | .cidRef => "cidRef" | .mdata => "mdata"
+def showTmpArea : TmpArea → String
+  | .obj => "obj" | .mdata => "mdata" | .refs => "refs"
+
+def encLoc : Loc → String
+  | .obj c => "obj " ++ encStr c | .pidRef k => "pidRef " ++ encStr k
+  | .cidRef c => "cidRef " ++ encStr c | .mdoc d n => s!"mdoc {encStr d} {encStr n}"
+
+def encTarget : Target → String
+  | .loc l => "loc " ++ encLoc l
+  | .dir a k => s!"dir {showArea a} {encStr k}"
+  | .tmp a => "tmp " ++ showTmpArea a
+
+def targetPath (cfg : Config) : Target → String
+  | .loc l => pathStr cfg l
+  | .dir a k => (dirLines cfg a k).getLast?.getD ("/".intercalate a.dir)
+  | .tmp a => "/".intercalate a.dir
+
 def handle (st : DState) (line : String) : DState × List String :=
   let ws := (line.trimAscii.toString.splitOn " ").filter (· ≠ "")
   match ws with
@@ -301,6 +324,14 @@ def handle (st : DState) (line : String) : DState × List String :=
     | some n => (st, [if isSpace (Char.ofNat n) then "1" else "0"])
     | none => (st, ["bad-op"])
   | ["sstate"] => (st, absLines st.a ++ ["."])
+  | "sites" :: r =>
+    match decCall r with
+    | none => (st, ["bad-op"])
+    | some c =>
+      let (_, _, evs) := Prog.runLog (c.prog st.cfg st.tabs.oracle) { st.w with log := [], fault := none } []
+      let ls := evs.flatMap fun e => e.sites.map fun (k, t) =>
+        s!"{showKind k}|{targetPath st.cfg t}|{encTarget t}"
+      (st, ls ++ ["."])
   | ["state"] => (st, stateLines st.cfg st.w.st ++ ["."])
   | ["log"] => (st, st.w.log.map (showEff st.cfg) ++ ["."])
   | ["locks"] => (st, [showLocks st.w.lk])
